@@ -1,3 +1,109 @@
-From MW Require Import Num.
-Theorem placeholder : True. Proof. exact I. Qed.
-Print Assumptions placeholder.
+(*  C03 — Radius and KNearest use exactly the observations in the neighbourhood.
+   
+    PROVED for every state, every metric of the model, every radius / k, every query, every number structure:
+     * the Radius neighbourhood is exactly the set of stored positions whose distance is <= the radius
+       (boundary included), in ascending position order;
+     * every KNearest selection the model accepts (the answer of numpy.argpartition is an oracle that is
+       CHECKED, not trusted) consists of k distinct stored positions none of which is farther than any
+       position left out - so any valid tie-break is accepted and nothing else;
+     * the stored observations are the rows of fit followed by the rows of every later partial_fit, aligned;
+     * an empty neighbourhood returns the stored NaN dictionary, and predict issues exactly one
+       choice(len(arms), p=no_nhood_prob_of_arm) request on the row generator and returns that arm;
+     * for a non-empty neighbourhood the expectations are those of a FRESHLY CONSTRUCTED learning policy
+       trained on exactly the selected observations (context-free policies other than Thompson Sampling; for
+       Thompson Sampling the same holds up to the unused stored sample, see NbrIndep.fit_query_indep).
+    ..._partial: linear learning policies under a neighbourhood are covered by the correspondence only. *)
+From Coq Require Import List ZArith Bool Arith QArith Qcanon.
+From MW Require Import Num Assoc AssocFacts Rng Par CF CFInv CFClean CFForget CFSpec Matrix Lin Warm WarmInv Nbr NbrFacts NbrIndep Clu Tree Mab FacadeCF FacadeArms NumLaws QcInst.
+Import ListNotations.
+
+Theorem C03_radius_neighbourhood_is_closed_ball :
+  forall (R A G : Type) (N : Num R) (s : (@nbr R A G)) (r : R) (row : list R) (orc l : list nat) (i : nat),
+  n_kind s = NRadius r ->
+  neighborhood N s row orc = Some l ->
+  In i l <->
+  (i < length (n_cx s))%nat /\ leb N (distance N (n_metric s) (nth i (n_cx s) []) row) r = true.
+Proof. exact @radius_membership. Qed.
+Print Assumptions C03_radius_neighbourhood_is_closed_ball.
+
+Theorem C03_knearest_selection_is_valid :
+  forall (R A G : Type) (N : Num R) (s : (@nbr R A G)) (k : nat) (row : list R) (orc sel : list nat),
+  n_kind s = NKNearest k ->
+  neighborhood N s row orc = Some sel ->
+  let dists := map (fun c : list R => distance N (n_metric s) c row) (n_cx s) in
+  length sel = k /\
+  NoDup sel /\
+  (forall i : nat, In i sel -> (i < length (n_cx s))%nat) /\
+  (forall i j : nat,
+   In i sel ->
+   (j < length (n_cx s))%nat -> ~ In j sel -> leb N (nth i dists (zero N)) (nth j dists (zero N)) = true).
+Proof. exact @knearest_valid. Qed.
+Print Assumptions C03_knearest_selection_is_valid.
+
+Theorem C03_history_after_fit :
+  forall (R A G : Type) (N : Num R) (RG : RngOps R G) (s : (@nbr R A G)) (g : G) (ds : list A) 
+    (rs : list R) (cx : (@mat R)),
+  let s' := fst (nbr_fit N RG s g ds rs cx) in
+  n_ds s' = ds /\ n_cx s' = cx /\ n_rs s' = snd (lp_binarize (n_lp s) ds rs).
+Proof. exact @history_after_fit. Qed.
+Print Assumptions C03_history_after_fit.
+
+Theorem C03_history_after_partial_fit :
+  forall (R A G : Type) (N : Num R) (s : (@nbr R A G)) (ds : list A) (rs : list R) (cx : (@mat R)),
+  let s' := nbr_partial_fit N s ds rs cx in
+  n_ds s' = n_ds s ++ ds /\
+  n_cx s' = n_cx s ++ cx /\ n_rs s' = n_rs s ++ snd (lp_binarize (n_lp s) ds rs).
+Proof. exact @history_after_partial_fit. Qed.
+Print Assumptions C03_history_after_partial_fit.
+
+Theorem C03_empty_neighbourhood :
+  forall (R A G : Type) (N : Num R) (aeqb : A -> A -> bool) (RG : RngOps R G) 
+    (s : (@nbr R A G)) (l : (@lp R A G)) (seed : Z) (row : list R) (orc : list nat),
+  neighborhood N s row orc = Some [] ->
+  (exists r : (@lp R A G), nbr_row N aeqb RG s l seed row orc false = Some (inr (n_exp s), r)) /\
+  (exists (a : option A) (r : (@lp R A G)),
+     nbr_row N aeqb RG s l seed row orc true = Some (inl a, r) /\
+     a =
+     nth_error (n_arms s)
+       (Z.to_nat
+          match fst (draw_z RG (create RG seed) (RqChoice (length (n_arms s)) (n_nnprob s))) with
+          | [] => 0
+          | x :: _ => x
+          end)).
+Proof. exact @empty_neighbourhood. Qed.
+Print Assumptions C03_empty_neighbourhood.
+
+Theorem C03_expectations_of_policy_trained_from_scratch_partial :
+  forall (R A G : Type) (N : Num R) (aeqb : A -> A -> bool) (RG : RngOps R G) 
+    (s : (@nbr R A G)) (t c : (@cf R A)) (seed : Z) (row : list R) (orc : list nat) (i : nat) 
+    (idx : list nat),
+  keys_ok t ->
+  clean N t ->
+  cf_good N t c ->
+  c_kind t <> KThompson ->
+  neighborhood N s row orc = Some (i :: idx) ->
+  let ds :=
+    flat_map (fun o : option A => match o with
+                                  | Some a => [a]
+                                  | None => []
+                                  end) (map (fun j : nat => nth_error (n_ds s) j) (i :: idx)) in
+  let rs := select (n_rs s) (zero N) (i :: idx) in
+  let
+  '(e, _, _) :=
+   cf_predict_exp N aeqb RG (cf_fit N aeqb (cf_fresh N t) ds rs) (create RG seed) (Some 1%nat) in
+   exists l' : (@lp R A G),
+     nbr_row N aeqb RG s (LCf c) seed row orc false =
+     Some (inr (map (fun kv : A * R => (fst kv, Some (snd kv))) (hd [] e)), l').
+Proof. exact @nn_expectations_from_scratch. Qed.
+Print Assumptions C03_expectations_of_policy_trained_from_scratch_partial.
+
+(* non-vacuity: a Radius bandit over the rationals, cityblock metric, radius 2; the stored row at distance
+   exactly 2 is selected, the one at distance 3 is not *)
+Definition q (z : Z) : Qc := Q2Qc (inject_Z z).
+Definition ex_nbr : @nbr Qc Z nat :=
+  mkNbr (NRadius (q 2)) Cityblock None false [1; 2]%Z (LCf (cf_init QcNum KUcb (q 1) None [1; 2]%Z))
+        [(1%Z, None); (2%Z, None)] [1; 2; 1]%Z [q 1; q 0; q 1] [[q 0; q 0]; [q 1; q 1]; [q 3; q 0]] [] [].
+Example C03_boundary_row_included :
+  neighborhood QcNum ex_nbr [q 0; q 0] [] = Some [0; 1]%nat.
+Proof. vm_compute. reflexivity. Qed.
+
